@@ -3,6 +3,13 @@
 # is the only mode) split into one pytest process per test file, in parallel, and
 # compares the union of the junit results with stable_pass in BASELINE.json.
 # usage: tools/baseline.sh [repo-dir] [parallelism]
+# The listener tests of the repository bind fixed TCP ports (50000-50002): run everything in a
+# private network namespace (loopback only; the sandbox has no network anyway), so that several
+# baselines and the listener checks can run at the same time.
+if [ -z "$VF_NETNS" ] && unshare -n true 2>/dev/null; then
+  VF_NETNS=1; export VF_NETNS
+  exec unshare -n sh -c 'ip link set lo up 2>/dev/null || ifconfig lo up 2>/dev/null; exec "$0" "$@"' "$0" "$@"
+fi
 REPO="${1:-/repo}"
 N="${2:-12}"
 OUT="$(mktemp -d /tmp/vf-baseline.XXXXXX)"
